@@ -300,24 +300,27 @@ theorem descend_cons_some (t t' : Tbl) (k : Bytes) (ks : List Bytes) (d : Bool) 
     (h : descend t (k :: ks) d f = some t') :
     (∃ sub sub', (alookup k t.items).getD (.table (newImplicit d)) = .table sub ∧ (d && !sub.implicit) = false ∧
         descend sub ks d f = some sub' ∧ t' = t.setItems (aset k (.table sub') t.items)) ∨
-    (∃ init l l', alookup k t.items = some (.aot (init ++ [l])) ∧ descend l ks d f = some l' ∧
-        t' = t.setItems (aset k (.aot (init ++ [l'])) t.items)) := by
+    (∃ init l l', alookup k t.items = some (.aot (init ++ [l])) ∧ (d && !ks.isEmpty) = false ∧
+        descend l ks d f = some l' ∧ t' = t.setItems (aset k (.aot (init ++ [l'])) t.items)) := by
   unfold descend at h
   simp only [] at h
   split at h
   · simp at h
   · rename_i ts he
-    cases hm : modifyLast ts (fun last => descend last ks d f) with
-    | none => simp [hm] at h
-    | some ts' =>
-      simp [hm] at h
-      obtain ⟨init, l, l', e1, e2, e3⟩ := modifyLast_some _ _ _ hm
-      right
-      refine ⟨init, l, l', ?_, e2, ?_⟩
-      · cases ha : alookup k t.items with
-        | none => simp [ha, newImplicit] at he
-        | some it => simp [ha] at he; rw [he, e1]
-      · rw [← e3]; exact h.symm
+    split at h
+    · simp at h
+    · rename_i hca
+      cases hm : modifyLast ts (fun last => descend last ks d f) with
+      | none => simp [hm] at h
+      | some ts' =>
+        simp [hm] at h
+        obtain ⟨init, l, l', e1, e2, e3⟩ := modifyLast_some _ _ _ hm
+        right
+        refine ⟨init, l, l', ?_, by simpa using hca, e2, ?_⟩
+        · cases ha : alookup k t.items with
+          | none => simp [ha, newImplicit] at he
+          | some it => simp [ha] at he; rw [he, e1]
+        · rw [← e3]; exact h.symm
   · rename_i sub he
     left
     split at h
@@ -362,7 +365,7 @@ theorem descend_spec (t t' : Tbl) (path : List Bytes) (d : Bool) (f : Tbl → Op
   induction path generalizing t t' with
   | nil => exact ⟨t', by simpa [descend, target, lookupTbl] using h, rfl⟩
   | cons k ks ih =>
-    rcases descend_cons_some t t' k ks d f h with ⟨sub, sub', he, _, hs, ht⟩ | ⟨init, l, l', ha, hs, ht⟩
+    rcases descend_cons_some t t' k ks d f h with ⟨sub, sub', he, _, hs, ht⟩ | ⟨init, l, l', ha, hca, hs, ht⟩
     · obtain ⟨u', h1, h2⟩ := ih sub sub' hs
       refine ⟨u', by rw [target_cons_table t sub k ks d he]; exact h1, ?_⟩
       subst ht
@@ -495,7 +498,7 @@ theorem descend_pres (P : Option Nat → Prop) (t t' : Tbl) (path : List Bytes) 
   induction path generalizing t t' with
   | nil => exact hf t' (by simpa [descend, target, lookupTbl] using h)
   | cons k ks ih =>
-    rcases descend_cons_some t t' k ks d f h with ⟨sub, sub', he, _, hs, ht⟩ | ⟨init, l, l', ha, hs, ht⟩
+    rcases descend_cons_some t t' k ks d f h with ⟨sub, sub', he, _, hs, ht⟩ | ⟨init, l, l', ha, hca, hs, ht⟩
     · rw [target_cons_table t sub k ks d he] at hf
       have hsub := ih sub sub' hs hf
       subst ht
@@ -542,10 +545,10 @@ theorem descend_cons_table (t sub : Tbl) (k : Bytes) (ks : List Bytes) (d : Bool
   cases descend sub ks d f <;> simp
 
 theorem descend_cons_aot (t l : Tbl) (init : List Tbl) (k : Bytes) (ks : List Bytes) (d : Bool) (f : Tbl → Option Tbl)
-    (ha : alookup k t.items = some (.aot (init ++ [l]))) :
+    (ha : alookup k t.items = some (.aot (init ++ [l]))) (hca : (d && !ks.isEmpty) = false) :
     descend t (k :: ks) d f = (descend l ks d f).map (fun l' => t.setItems (aset k (.aot (init ++ [l'])) t.items)) := by
   rw [descend]
-  simp only [ha, Option.getD_some, modifyLast_append]
+  simp only [ha, Option.getD_some, modifyLast_append, hca]
   cases descend l ks d f <;> simp
 
 theorem descend_cons_value (t : Tbl) (x : Val) (k : Bytes) (ks : List Bytes) (d : Bool) (f : Tbl → Option Tbl)
@@ -553,13 +556,29 @@ theorem descend_cons_value (t : Tbl) (x : Val) (k : Bytes) (ks : List Bytes) (d 
   rw [descend]
   simp only [ha, Option.getD_some]
 
-theorem descend_append (t : Tbl) (p q : List Bytes) (d : Bool) (f : Tbl → Option Tbl) :
-    descend t (p ++ q) d f = descend t p d (fun u => descend u q d f) := by
+/-- a dotted descent that refuses to pass through an array of tables in the middle of `p ++ q` is
+    more restrictive than the nested one, hence only an implication (an equality for headers) -/
+theorem descend_append_some (t t' : Tbl) (p q : List Bytes) (d : Bool) (f : Tbl → Option Tbl)
+    (h : descend t (p ++ q) d f = some t') : descend t p d (fun u => descend u q d f) = some t' := by
+  induction p generalizing t t' with
+  | nil => simpa [descend] using h
+  | cons k ks ih =>
+    rw [List.cons_append] at h
+    rcases descend_cons_some t t' k (ks ++ q) d f h with ⟨sub, sub', he, hc, hs, ht⟩ | ⟨init, l, l', ha, hca, hs, ht⟩
+    · rw [descend_cons_table t sub k ks d _ he hc, ih sub sub' hs, ht]; rfl
+    · have hca' : (d && !ks.isEmpty) = false := by
+        cases d with
+        | false => rfl
+        | true => cases ks <;> simp at hca ⊢
+      rw [descend_cons_aot t l init k ks d _ ha hca', ih l l' hs, ht]; rfl
+
+theorem descend_append_false (t : Tbl) (p q : List Bytes) (f : Tbl → Option Tbl) :
+    descend t (p ++ q) false f = descend t p false (fun u => descend u q false f) := by
   induction p generalizing t with
   | nil => simp [descend]
   | cons k ks ih =>
     rw [List.cons_append, descend, descend]
-    simp only [ih]
+    simp only [ih, Bool.false_and]
 
 /-! ## `onKeyval` -/
 
@@ -958,14 +977,14 @@ theorem descend_descend (t t' : Tbl) (path : List Bytes) (f g : Tbl → Option T
     simp only [descend] at h ⊢
     simp [h]
   | cons k ks ih =>
-    rcases descend_cons_some t t' k ks false f h with ⟨sub, sub', he, hc, hs, ht⟩ | ⟨init, l, l', ha, hs, ht⟩
+    rcases descend_cons_some t t' k ks false f h with ⟨sub, sub', he, hc, hs, ht⟩ | ⟨init, l, l', ha, hca, hs, ht⟩
     · rw [descend_cons_table t sub k ks false _ he hc, ← ih sub sub' hs]
       subst ht
       rw [descend_cons_table _ sub' k ks false g (by simp [alookup_aset_same]) (by simp)]
       simp only [items_setItems, aset_aset, setItems_setItems]
-    · rw [descend_cons_aot t l init k ks false _ ha, ← ih l l' hs]
+    · rw [descend_cons_aot t l init k ks false _ ha rfl, ← ih l l' hs]
       subst ht
-      rw [descend_cons_aot _ l' init k ks false g (by simp [alookup_aset_same])]
+      rw [descend_cons_aot _ l' init k ks false g (by simp [alookup_aset_same]) rfl]
       simp only [items_setItems, aset_aset, setItems_setItems]
 
 /-- `descend` uses `f` only at the target table -/
@@ -990,7 +1009,10 @@ theorem descend_congr (t : Tbl) (path : List Bytes) (d : Bool) (f g : Tbl → Op
       · subst hc
         rw [List.concat_eq_append] at ha
         rw [target_cons_aot t l init k ks d ha] at h
-        rw [descend_cons_aot t l init k ks d f ha, descend_cons_aot t l init k ks d g ha, ih l h]
+        cases hca : (d && !ks.isEmpty) with
+        | true => rw [descend, descend]; simp only [ha, Option.getD_some, hca, if_true]
+        | false =>
+          rw [descend_cons_aot t l init k ks d f ha hca, descend_cons_aot t l init k ks d g ha hca, ih l h]
 
 
 /-! ## well-formedness: distinct keys in every table reachable by `lookupTbl` -/
@@ -1090,7 +1112,7 @@ theorem descend_wf (t t' : Tbl) (path : List Bytes) (d : Bool) (f : Tbl → Opti
     rw [e] at hf
     exact hf t' hw (by simpa [descend] using h)
   | cons k ks ih =>
-    rcases descend_cons_some t t' k ks d f h with ⟨sub, sub', he, _, hs, ht⟩ | ⟨init, l, l', ha, hs, ht⟩
+    rcases descend_cons_some t t' k ks d f h with ⟨sub, sub', he, _, hs, ht⟩ | ⟨init, l, l', ha, hca, hs, ht⟩
     · rw [target_cons_table t sub k ks d he] at hf
       have hsub : WF sub := by
         cases hx : alookup k t.items with
@@ -1118,7 +1140,7 @@ theorem descend_mono (P : Option Nat → Prop) (t a : Tbl) (path : List Bytes) (
     rw [e] at hfg
     simpa [descend] using hfg a (by simpa [descend] using h)
   | cons k ks ih =>
-    rcases descend_cons_some t a k ks d f h with ⟨sub, sub', he, hc, hs, ht⟩ | ⟨init, l, l', ha, hs, ht⟩
+    rcases descend_cons_some t a k ks d f h with ⟨sub, sub', he, hc, hs, ht⟩ | ⟨init, l, l', ha, hca, hs, ht⟩
     · rw [target_cons_table t sub k ks d he] at hfg
       obtain ⟨sub'', hg, hp⟩ := ih sub sub' hs hfg
       refine ⟨_, by rw [descend_cons_table t sub k ks d g he hc, hg]; rfl, ?_⟩
@@ -1133,7 +1155,7 @@ theorem descend_mono (P : Option Nat → Prop) (t a : Tbl) (path : List Bytes) (
         exact ⟨item, by simpa [alookup_aset_other _ _ _ _ hk] using h0, ItemPres.refl P item⟩
     · rw [target_cons_aot t l init k ks d ha] at hfg
       obtain ⟨l'', hg, hp⟩ := ih l l' hs hfg
-      refine ⟨_, by rw [descend_cons_aot t l init k ks d g ha, hg]; rfl, ?_⟩
+      refine ⟨_, by rw [descend_cons_aot t l init k ks d g ha hca, hg]; rfl, ?_⟩
       subst ht
       apply presP_of_items
       intro k0 item h0
